@@ -138,8 +138,9 @@ def get_exponentiated_qubit_operator_circuit(qubit_op, time=1., variational=Fals
                 if isinstance(control, int) or len(control) == 1:
                     exp_pauli_word_gates += [Gate("PHASE", target=control, parameter=-np.real(coef), is_variational=variational)]
                 else:
-                    exp_pauli_word_gates += [Gate("CPHASE", target=0, control=control, parameter=-2*np.real(coef), is_variational=variational)]
-                    exp_pauli_word_gates += [Gate("CRZ", target=0, control=control, parameter=2*np.real(coef), is_variational=variational)]
+                    # Phase applied when all control qubits are 1: a phase gate on one control qubit, controlled by the others
+                    # (no other qubit is involved, qubit 0 may itself be one of the controls)
+                    exp_pauli_word_gates += [Gate("CPHASE", target=control[0], control=control[1:], parameter=-np.real(coef), is_variational=variational)]
 
     return_value = (Circuit(exp_pauli_word_gates), phase) if return_phase else Circuit(exp_pauli_word_gates)
     return return_value
